@@ -49,6 +49,26 @@ impl InlineCache {
     }
   }
 
+  /// How many property slots does this cache hold
+  pub fn property_slots(&self) -> usize {
+    self.property.len()
+  }
+
+  /// How many invoke slots does this cache hold
+  pub fn invoke_slots(&self) -> usize {
+    self.invoke.len()
+  }
+
+  /// Grow this cache keeping every existing entry
+  pub fn grow(&mut self, property_slots: usize, invoke_slots: usize) {
+    if property_slots > self.property.len() {
+      self.property.resize(property_slots, None);
+    }
+    if invoke_slots > self.invoke.len() {
+      self.invoke.resize(invoke_slots, None);
+    }
+  }
+
   /// Attempt to retrieve the property cache at a given slot
   /// for the provided class
   pub fn get_property_cache(&self, inline_slot: usize, class: ObjRef<Class>) -> Option<usize> {
@@ -162,6 +182,14 @@ pub struct CacheIdEmitter {
 }
 
 impl CacheIdEmitter {
+  /// An emitter that continues after ids that were already handed out
+  pub fn continuing(property_count: usize, invoke_count: usize) -> Self {
+    Self {
+      property: IdEmitter::starting_at(property_count),
+      invoke: IdEmitter::starting_at(invoke_count),
+    }
+  }
+
   /// Emit a new property id
   pub fn emit_property(&mut self) -> u32 {
     if self.property_count() > u32::MAX as usize {
